@@ -69,6 +69,12 @@ def main(prop, deciding_counters, quick_cases=90, thorough_cases=2500, assumptio
     else:
         number = quick_cases if args.tier == "quick" else thorough_cases
         cases = [draw(rng, index, args.tier, shipped_share) for index in range(number)]
+        # a fixed core that every run covers: each shipped selection once (default vm variants, two workers; all vm variant
+        # sets in the thorough tier), whatever the seed draws
+        for vm_strs in (SHIPPED_VMS if args.tier != "quick" else SHIPPED_VMS[:1]):
+            for restriction in SHIPPED:
+                cases.append({"restriction": restriction, "vm_strs": dict(vm_strs), "nets": "net1 net2", "params": {"shared_pool": "/mnt/local/images/shared"},
+                              "suite": "shipped", "twice": False, "lazy": True})
     for case in cases:
         case["oracles"] = [prop]
     budget = args.budget or (None if args.replay else (900 if args.tier == "quick" else 3 * 3600))
